@@ -21,6 +21,19 @@ func FillContent(b []byte, pos int) {
 // ErrCustom is an error value no library knows.
 var ErrCustom = errors.New("doubles: injected source error")
 
+// timeoutErr is a net.Error-like error whose Timeout() and Temporary() report true.
+type timeoutErr struct{}
+
+func (timeoutErr) Error() string   { return "doubles: i/o timeout (injected)" }
+func (timeoutErr) Timeout() bool   { return true }
+func (timeoutErr) Temporary() bool { return true }
+
+// ErrTimeout is an injected timeout-class error.
+var ErrTimeout error = timeoutErr{}
+
+// SinkErrors are the error values sinks fail with.
+var SinkErrors = []error{ErrCustom, ErrTimeout, io.ErrShortWrite, io.ErrClosedPipe, io.EOF}
+
 // Schedule kinds for Source.
 const (
 	SchedOne    = iota // 1 byte per Read
@@ -57,6 +70,7 @@ type Source struct {
 	Exhausted    bool
 	ErrDelivered bool
 	ZeroReads    int
+	EndReads     int // Read calls made when every byte had already been delivered
 	zeroRun      int
 	zeroOwed     int
 	MaxAsk       int
@@ -88,6 +102,7 @@ func (s *Source) Read(p []byte) (int, error) {
 		limit = s.Len
 	}
 	if s.Pos >= limit {
+		s.EndReads++
 		if s.Endless0 {
 			s.ZeroReads++
 			return 0, nil
